@@ -46,9 +46,101 @@ fn gen_case(g: &mut Gen, peers: u64, len: usize) -> Vec<String> {
     ops
 }
 
+/// id list `base..base+n` as a SharePeers payload
+fn peers_tok(base: u64, n: u64) -> String {
+    if n == 0 { "ps.peers:-".into() } else { format!("ps.peers:{}", (base..base + n).map(|x| x.to_string()).collect::<Vec<_>>().join(",")) }
+}
+
+/// discovery-pool family: 1..3 handshaked peer-sharing peers are asked in the same housekeeping round and answer with
+/// 0..300 addresses each (distinct or overlapping ranges, more than asked for included), so `discovered.len()` crosses
+/// the high water mark (100) and `max_peers - total` (small limits) between two housekeeping passes
+fn gen_discovery_case(g: &mut Gen) -> Vec<String> {
+    const SIZES: [u64; 12] = [0, 1, 2, 50, 99, 100, 101, 120, 150, 200, 255, 300];
+    let k = g.rng.range(1, 3);
+    let mut ops = vec![format!("cfg {} {} {} {}", g.rng.range(k, k + 6), k, k, g.rng.range(0, 2))];
+    for p in 0..k {
+        for o in [format!("include {p}"), "hk".to_string(), format!("connected {p}"), format!("sent {p} hs.propose"),
+                  format!("recv {p} hs.accept:{}:1", *g.rng.pick(&[13, 15]))] { ops.push(o); }
+    }
+    for round in 0..g.rng.range(1, 3) {
+        ops.push(if g.rng.chance(1, 3) { "idle".into() } else { "hk".into() });
+        for p in 0..k { ops.push(format!("sent {p} ps.req:{}", *g.rng.pick(&[100u64, 100, 50, 1]))); }
+        for p in 0..k {
+            let n = if g.rng.chance(1, 4) { g.rng.below(301) } else { *g.rng.pick(&SIZES) };
+            // overlapping (same base), adjacent, or far apart
+            let base = match g.rng.below(3) { 0 => 1000, 1 => 1000 + p * 60, _ => 1000 + 400 * p + 1300 * round };
+            if g.rng.chance(1, 6) { ops.push("hk".into()); }
+            ops.push(format!("recv {p} {}", peers_tok(base, n)));
+        }
+        for _ in 0..g.rng.range(1, 3) { ops.push(if g.rng.chance(1, 3) { "idle".into() } else { "hk".into() }); }
+        if g.rng.chance(1, 3) { let p = g.rng.below(k); ops.push(format!("disconnected {p}")); ops.push(format!("include {}", 1000 + g.rng.below(300))); }
+        if g.rng.chance(1, 3) { ops.push(format!("error {}", g.rng.below(k))); ops.push("hk".into()); }
+    }
+    ops
+}
+
+/// counter / capacity families: every unchecked subtraction or increment of the behaviour files gets inputs on both
+/// sides of its guard. `limits`: more peers than max_peers / max_warm / max_hot (required_*, peer_deficit);
+/// `errors`: error storms far beyond max_error_count, before and after the ban; `queues`: block / EB request queues
+/// longer than the number of peers, purged by disconnects and errors.
+fn gen_counter_case(g: &mut Gen, family: u64) -> Vec<String> {
+    let mut ops = vec![];
+    match family {
+        0 => {
+            let (mp, mw, mh) = (g.rng.range(1, 3), g.rng.range(1, 2), g.rng.range(1, 2));
+            ops.push(format!("cfg {mp} {mw} {mh} 0"));
+            for p in 0..8u64 { ops.push(format!("include {p}")); if g.rng.chance(1, 3) { ops.push("hk".into()); } }
+            for _ in 0..g.rng.range(10, 40) {
+                let p = g.rng.below(8);
+                ops.push(match g.rng.below(8) {
+                    0..=2 => "hk".into(), 3 => format!("connected {p}"), 4 => format!("recv {p} hs.accept:13:1"),
+                    5 => format!("sent {p} hs.propose"), 6 => format!("ban {p}"), _ => format!("disconnected {p}"),
+                });
+            }
+        }
+        1 => {
+            ops.push(format!("cfg 4 2 2 {}", g.rng.range(0, 3)));
+            for p in 0..2u64 { for o in [format!("include {p}"), "hk".to_string(), format!("connected {p}")] { ops.push(o); } }
+            for _ in 0..g.rng.range(5, 60) {
+                let p = g.rng.below(3);
+                ops.push(match g.rng.below(6) { 0..=3 => format!("error {p}"), 4 => "hk".into(), _ => format!("disconnected {p}") });
+            }
+        }
+        _ => {
+            ops.push("cfg 4 3 3 1".into());
+            for p in 0..3u64 {
+                for o in [format!("include {p}"), "hk".to_string(), format!("connected {p}"), format!("sent {p} hs.propose"),
+                          format!("recv {p} hs.accept:15:1"), "hk".to_string()] { ops.push(o); }
+            }
+            for _ in 0..g.rng.range(10, 50) {
+                let p = g.rng.below(4);
+                ops.push(match g.rng.below(10) {
+                    0..=2 => format!("reqblocks {}", g.rng.below(20)), 3..=4 => format!("fetcheb {p} {}", g.rng.below(9)),
+                    5 => format!("fetchebtxs {p} {}", g.rng.below(9)), 6..=7 => if g.rng.chance(1, 2) { "hk".into() } else { "idle".into() },
+                    8 => format!("disconnected {p}"), _ => format!("error {p}"),
+                });
+            }
+        }
+    }
+    ops
+}
+
 pub fn generate(g: &mut Gen) {
     // DESIGN §6 #17 witness: a second Connected after the proposal was sent
     g.case(["cfg 4 2 2 1", "include 1", "hk", "connected 1", "sent 1 hs.propose", "connected 1", "hk"].map(String::from));
+    // one honest peer answering ShareRequest(100) with 150 addresses; two honest peers answering 100 each in one round
+    let up = |p: u64| [format!("include {p}"), "hk".to_string(), format!("connected {p}"), format!("sent {p} hs.propose"), format!("recv {p} hs.accept:13:1")];
+    let mut w1: Vec<String> = vec!["cfg 4 2 2 1".into()];
+    w1.extend(up(0)); w1.push("hk".into()); w1.push("sent 0 ps.req:100".into()); w1.push(format!("recv 0 {}", peers_tok(1000, 150))); w1.push("hk".into()); w1.push("hk".into());
+    g.case(w1);
+    let mut w2: Vec<String> = vec!["cfg 4 2 2 1".into()];
+    w2.extend(up(0)); w2.extend(up(1)); w2.push("hk".into());
+    for p in 0..2 { w2.push(format!("sent {p} ps.req:100")); }
+    for p in 0..2u64 { w2.push(format!("recv {p} {}", peers_tok(1000 + 100 * p, 100))); }
+    w2.push("idle".into()); w2.push("hk".into());
+    g.case(w2);
+    for _ in 0..(g.cases / 5).max(4) { let ops = gen_discovery_case(g); g.case(ops); }
+    for i in 0..(g.cases / 10).max(6) { let ops = gen_counter_case(g, i as u64 % 3); g.case(ops); }
     for i in 0..g.cases {
         let (peers, len) = match i % 3 { 0 => (2, g.rng.range(5, 30)), 1 => (5, g.rng.range(20, 120)), _ => (8, g.rng.range(100, 300)) };
         let ops = gen_case(g, peers, len as usize);
